@@ -13,7 +13,8 @@ VERIF = os.path.dirname(os.path.dirname(os.path.abspath(__file__)))
 COQ = f'{VERIF}/coq'
 BBM = f'{VERIF}/ocaml/bbm'
 HARNESS = f'{VERIF}/harness'
-BBH = f'{HARNESS}/target/release/bbh'
+BBH_OVERRIDE = os.environ.get('BBH_OVERRIDE')      # self-tests only: a harness built from a scratch copy of /repo/src
+BBH = BBH_OVERRIDE or f'{HARNESS}/target/release/bbh'
 BBH_WRAP = f'{HARNESS}/target/wrap/bbh'
 WORK = f'{VERIF}/work'
 REPLAY_DIR = f'{VERIF}/evidence/replay'
@@ -99,6 +100,8 @@ def build_bbm():
 def build_bbh(profile='release'):
     """Rebuild the harness from /repo's CURRENT working tree (cargo decides
     what changed). Hooks on, overflow checks as in cargo test."""
+    if BBH_OVERRIDE and profile == 'release':
+        return
     env = dict(ENV, RUSTFLAGS='--cfg bb_verif')
     flag = '--release' if profile == 'release' else f'--profile {profile}'
     rc, o, e = sh(f'cargo build {flag} --offline', cwd=HARNESS, env=env, timeout=1800)
